@@ -192,7 +192,9 @@ pub fn runone(id: &str, run_index: u64, crumb: &str, tier: &str) -> ExitCode {
             let _ = pwlsim::seeded_history_run(id, rs, tier == "thorough" && run_index % 2 == 1);
         }
         "C11" => {
-            let _ = pwlsim::seeded_fault_scenario(rs, tier == "thorough");
+            for chunk in 0..pwlsim::CHUNKS {
+                let _ = pwlsim::seeded_fault_scenario(rs, tier == "thorough", chunk);
+            }
         }
         _ => {}
     }
@@ -509,8 +511,14 @@ pub fn trace(id: &str, run_index: u64) -> ExitCode {
             println!("violations: {:?}", r.violations);
         }
         "C11" => {
-            let r = pwlsim::seeded_fault_scenario_traced(rs, tier_of("quick") == "thorough", true);
-            println!("executions: {} violating: {}", r.executions, r.violating.len());
+            let mut ex = 0;
+            let mut bad = 0;
+            for chunk in 0..pwlsim::CHUNKS {
+                let r = pwlsim::seeded_fault_scenario_traced(rs, tier_of("quick") == "thorough", chunk, true);
+                ex += r.executions;
+                bad += r.violating.len();
+            }
+            println!("executions: {ex} violating: {bad}");
         }
         "C12" => {
             let mut st = ArenaStats::default();
@@ -651,6 +659,8 @@ fn zero_probe_warnings(st: &PwlStats, wanted: &[&str]) -> Vec<String> {
 }
 
 struct Found {
+    /// total order used to pick the reported instance of a violation key (smallest wins)
+    order: u64,
     run_index: u64,
     violation: Violation,
     scenario: Scenario,
@@ -720,9 +730,9 @@ fn worker_history(id: &str, tier: &str, seed: u64) -> ExitCode {
             if v.property == id {
                 mine = true;
                 let key = v.key();
-                let better = acc.firsts.get(&key).map(|f| run_index < f.run_index).unwrap_or(true);
+                let better = acc.firsts.get(&key).map(|f| run_index < f.order).unwrap_or(true);
                 if better {
-                    acc.firsts.insert(key, Found { run_index, violation: v, scenario: res.scenario.clone() });
+                    acc.firsts.insert(key, Found { order: run_index, run_index, violation: v, scenario: res.scenario.clone() });
                 }
             } else {
                 *acc.other_props.entry(v.property.clone()).or_default() += 1;
@@ -746,7 +756,7 @@ fn worker_history(id: &str, tier: &str, seed: u64) -> ExitCode {
             *other_props.entry(k).or_default() += v;
         }
         for (k, f) in a.firsts {
-            let better = firsts.get(&k).map(|g| f.run_index < g.run_index).unwrap_or(true);
+            let better = firsts.get(&k).map(|g| f.order < g.order).unwrap_or(true);
             if better {
                 firsts.insert(k, f);
             }
@@ -845,10 +855,11 @@ fn worker_c11(tier: &str, seed: u64) -> ExitCode {
     let id = "C11";
     let thorough = tier == "thorough";
     let runs = env_u64("VERIF_RUNS").unwrap_or(if thorough { 30_000 } else { 300 });
+    let chunks = pwlsim::CHUNKS as u64;
     let batch = Batch {
-        runs,
+        runs: runs * chunks,
         threads: threads(),
-        max_wall: Duration::from_secs(if thorough { 5400 } else { 900 }),
+        max_wall: Duration::from_secs(if thorough { 7200 } else { 900 }),
         run_timeout: Duration::from_secs(300),
     };
     #[derive(Default)]
@@ -867,19 +878,27 @@ fn worker_c11(tier: &str, seed: u64) -> ExitCode {
         scenario_hashes: std::collections::BTreeSet<u64>,
     }
     let crumbs = CrumbWriter::new(id);
-    let out = run_batch(&batch, Acc::default, |run_index, acc: &mut Acc| {
+    let out = run_batch(&batch, Acc::default, |item, acc: &mut Acc| {
+        // work item = (scenario, chunk): a scenario's plans are spread over CHUNKS items
+        let run_index = item / chunks;
+        let chunk = (item % chunks) as usize;
         crumbs.write(run_index, seed);
         let rs = run_seed(seed, id, run_index);
-        let res = pwlsim::seeded_fault_scenario(rs, thorough);
+        let res = pwlsim::seeded_fault_scenario(rs, thorough, chunk);
         let mut st = res.stats;
         for (k, v) in crate::logprobe::take() {
             *st.probes.entry(k.to_string()).or_default() += v;
         }
         acc.stats.merge(st);
-        acc.scenarios += 1;
+        if chunk == 0 {
+            acc.scenarios += 1;
+            acc.baseline_calls += res.baseline_calls as u64;
+        }
         if res.discarded {
-            acc.discarded += 1;
-        } else if res.baseline_calls > 0 {
+            if chunk == 0 {
+                acc.discarded += 1;
+            }
+        } else if res.baseline_calls > 0 && chunk == 0 {
             let mut h = crate::common::Fnv::new();
             h.str(&serde_json::to_string(&res.base.history.iter().map(|o| o.name()).collect::<Vec<_>>()).unwrap());
             h.u64(res.baseline_calls as u64);
@@ -892,8 +911,7 @@ fn worker_c11(tier: &str, seed: u64) -> ExitCode {
         acc.single += res.enumerated_single;
         acc.pairs += res.enumerated_pairs;
         acc.sampled += res.sampled_plans;
-        acc.baseline_calls += res.baseline_calls as u64;
-        if acc.samples.len() < 2 && !res.discarded && res.baseline_calls > 0 && run_index < 64 {
+        if chunk == 0 && acc.samples.len() < 2 && !res.discarded && res.baseline_calls > 0 && run_index < 64 {
             acc.samples.push(json!({"run_index": run_index, "run_seed": rs, "scenario": res.base, "lp_calls_of_faulty_suffix_when_fault_free": res.baseline_calls,
                 "single_fault_plans_enumerated": res.enumerated_single}));
         }
@@ -904,9 +922,9 @@ fn worker_c11(tier: &str, seed: u64) -> ExitCode {
                     continue;
                 }
                 let key = v.key();
-                let better = acc.firsts.get(&key).map(|f| run_index < f.run_index).unwrap_or(true);
+                let better = acc.firsts.get(&key).map(|f| item < f.order).unwrap_or(true);
                 if better {
-                    acc.firsts.insert(key, Found { run_index, violation: v, scenario: sc.clone() });
+                    acc.firsts.insert(key, Found { order: item, run_index, violation: v, scenario: sc.clone() });
                 }
             }
         }
@@ -926,7 +944,7 @@ fn worker_c11(tier: &str, seed: u64) -> ExitCode {
         a.samples.extend(b.samples);
         a.scenario_hashes.extend(b.scenario_hashes);
         for (k, f) in b.firsts {
-            let better = a.firsts.get(&k).map(|g| f.run_index < g.run_index).unwrap_or(true);
+            let better = a.firsts.get(&k).map(|g| f.order < g.order).unwrap_or(true);
             if better {
                 a.firsts.insert(k, f);
             }
